@@ -154,7 +154,8 @@ def _check_revdns(ip):
         debug3('<    %s' % r[0])
         check_host(r[0])
         found_host(r[0], ip)
-    except (OSError, socket.error, UnicodeError):
+    except (OSError, socket.error, UnicodeError, TypeError):
+        # TypeError: an address text with a NUL byte
         # This case is expected to occur regularly.
         # debug3('<    %s gethostbyaddr failed on remote host' % ip)
         pass
@@ -167,7 +168,9 @@ def _check_dns(hostname):
         debug3('<    %s' % ip)
         check_host(ip)
         found_host(hostname, ip)
-    except (socket.gaierror, UnicodeError):
+    except (socket.gaierror, UnicodeError, TypeError):
+        # UnicodeError: a name that cannot be IDNA-encoded (empty or
+        # over-long label); TypeError: a name with a NUL byte
         pass
 
 
